@@ -839,6 +839,19 @@ impl FailSafe {
     }
 }
 
+/// Verification hooks: read-only view of the fail-safe context (for the runtime
+/// monitors under /verif).
+#[cfg(feature = "verif")]
+impl FailSafe {
+    /// `None` when idle, else `(fabric index, NocFlags bits, timeout in seconds)`.
+    pub fn verif_state(&self) -> Option<(u8, u8, u16)> {
+        match &self.state {
+            State::Idle => None,
+            State::Armed(ctx) => Some((ctx.fab_idx, ctx.flags.bits(), ctx.timeout_secs)),
+        }
+    }
+}
+
 impl Default for FailSafe {
     fn default() -> Self {
         Self::new()
